@@ -78,6 +78,26 @@ int main(int argc, char** argv) {
             }
         }
     }
+    {   // char terms for control characters and for bytes >= 0x80 are different symbols with different names: root -> X Y for every ordered pair of a byte list
+        static constexpr unsigned char bytes[] = {0x01, 0x0f, 0x7f, 0x80, 0x81, 0x8f, 0x91, 0xa0, 0xf1, 0xff};
+        auto one = [&](auto ia, auto ib) {
+            constexpr unsigned char a = bytes[decltype(ia)::value], b = bytes[decltype(ib)::value];
+            static constexpr nterm<int> root("root");
+            static const parser p(root, terms(char_term(char(a)), char_term(char(b))), nterms(root), rules(root(char_term(char(a)), char_term(char(b))) >= val(1)));
+            for (unsigned char x : {a, b}) for (unsigned char y : {a, b}) {
+                ++g_cases; ++g_checks; std::string in; in += char(x); in += char(y); int want = (x == a && y == b) ? 1 : 0;
+                std::ostringstream es; auto r = p.parse(string_buffer(std::string(in)), es);
+                char nm[16]; std::snprintf(nm, sizeof nm, "%02x %02x", a, b);
+                if ((r ? *r : 0) != want) fail((std::string("char terms for bytes ") + nm).c_str(), nm, "the two-byte input made of byte " + std::to_string(x) + " then " + std::to_string(y) + (r ? " is accepted" : " is rejected"));
+                if (!r) { char want_name[8]; unsigned char bad = (x != a) ? x : y; if (bad > 32 && bad < 127) std::snprintf(want_name, sizeof want_name, "%c", bad); else std::snprintf(want_name, sizeof want_name, "\\x%02X", bad);
+                    std::string want_msg = std::string(x != a ? "[1:1]" : "[1:2]") + " PARSE: Syntax error: Unexpected '" + want_name + "'\n";
+                    ++g_checks; if (es.str() != want_msg) fail((std::string("char terms for bytes ") + nm).c_str(), nm, "message '" + es.str() + "' expected '" + want_msg + "'"); }
+                if (want) ++g_accept;
+            }
+        };
+        auto row = [&](auto ia) { one(ia, std::integral_constant<size_t, 0>{}); one(ia, std::integral_constant<size_t, 1>{}); one(ia, std::integral_constant<size_t, 3>{}); one(ia, std::integral_constant<size_t, 4>{}); one(ia, std::integral_constant<size_t, 8>{}); one(ia, std::integral_constant<size_t, 9>{}); };
+        row(std::integral_constant<size_t, 0>{}); row(std::integral_constant<size_t, 1>{}); row(std::integral_constant<size_t, 2>{}); row(std::integral_constant<size_t, 4>{}); row(std::integral_constant<size_t, 5>{}); row(std::integral_constant<size_t, 6>{}); row(std::integral_constant<size_t, 7>{}); row(std::integral_constant<size_t, 8>{});
+    }
     std::string esc; for (char c : g_first) { if (c == '"' || c == '\\') esc += '\\'; esc += c; }
     std::printf("{\"cases\": %ld, \"checks\": %ld, \"failures\": %ld, \"accepted\": %ld, \"first_failure\": \"%s\"}\n", g_cases, g_checks, g_fail, g_accept, esc.c_str());
     return g_fail ? 1 : 0;
